@@ -135,6 +135,17 @@ def run_family2(R, tier, rng, counter):
                 R.record(lab + " source-unchanged", guarded(lambda: kl(np.asarray(t[arrk(keys)]))), kl([model[x] for x in keys]), kl([model[x] for x in keys]), nt, "like/source", py=f"{desc}; np.{which}(t); t[keys]")
                 t = t2; model = {x: (0 if which == "zeros_like" else 1) for x in model}; steps.append(f"t=np.{which}(t)")
                 R.record(lab + " " + which, guarded(lambda: kl(np.asarray(t[arrk(keys)]))), kl([model[x] for x in keys]), kl([model[x] for x in keys]), nt, "like/" + which, py=f"{desc}; {'; '.join(steps)}; t[keys]")
+            elif kind == "add" and not counter and rng.random() < .3:
+                # sum of two like-tables (scalar-valued), then an assignment: the value dtype must survive
+                def addlike():
+                    s2 = np.zeros_like(t) + np.ones_like(t)
+                    v = mkv(); s2[arrk(keys[:1])] = v
+                    return kl(np.asarray(s2[arrk(keys)]))
+                vv = None
+                # the assigned value is drawn inside addlike; recompute the expectation with the same generator state
+                st = rng.getstate(); v_exp = mkv(); rng.setstate(st)
+                exp = kl([v_exp] + [1] * (k - 1))
+                R.record(lab + " like+like then assign", guarded(addlike), exp, exp, nt, "add-like", py=f"{desc}; s = np.zeros_like(t) + np.ones_like(t); s[[{keys[0]}]] = {v_exp}; s[keys]")
             elif kind == "add" and not counter:
                 v2 = [mkv() for _ in keys]
                 def add():
@@ -161,7 +172,6 @@ def run_family2(R, tier, rng, counter):
                     o = HashTable(arrk(keys), np.array(v2, dtype=vdt), mod=mod); return bool(t == o)
                 R.record(lab + f" =={v2}", guarded(eq), same, same, nt, "eq", py=f"{desc}; {'; '.join(steps)}; t == HashTable(keys, {v2})")
             elif kind == "items":
-                if isinstance(getattr(t, "_values", None), (int, float)): continue
                 exp = sorted([key(a), key(b)] for a, b in model.items())
                 R.record(lab + " items", guarded(lambda: sorted([key(a), key(b)] for a, b in t.items())), exp, exp, nt, "items")
                 R.record(lab + " to_dict", guarded(lambda: sorted([key(a), key(b)] for a, b in t.to_dict().items())), exp, exp, nt, "to_dict")
